@@ -655,13 +655,17 @@ def special_texts() -> list[str]:
 
 def deep_texts() -> list[str]:
     out = []
-    for n in (50, 200, 400, 1200):
+    for n in (30, 50, 200, 400, 1200):
         out.append("a = { " + "(" * n + '"x"' + ")" * n + " }")
         out.append("a = { " + "!" * (3 * n) + "b }")
         out.append("a = { " + "PUSH(" * n + "b" + ")" * n + " }")
         out.append("a = { b" + "*" * (3 * n) + " }")
         out.append("a = { " + "(" * n)
         out.append("/*" * n + "*/" * n + " a = { b }")
+        out.append("/*" * n + " a = { b }")                         # nested block comments, none of them closed
+        out.append("a = { b }\n" + "/* " * n + "\n")                # the same with blanks between the openers, after a rule
+        out.append("a = { b " + "/* x " * n + "}")
+        out.append("/*" * n + "*/" * (n // 2) + " a = { b }")       # half of them closed
         out.append("a = { " + " ~ ".join(["b"] * (3 * n)) + " }")
     return out
 
@@ -1016,7 +1020,11 @@ def replay(out: Outcome, payload: dict) -> None:
     out.coverage = {"explanation": "replay of one recorded grammar text", "evaluations": 1, "distinct_nontrivial": 2,
                     "samples": [payload.get("text_repr", "")[:200]]}
     kind = payload.get("kind")
-    if kind == "totality":
+    if kind == "totality" and payload.get("class") == "exception:NoReturn":
+        if not returns_within(text, payload.get("optimizer") == "default"):
+            out.violation({**{k: payload[k] for k in ("kind", "text", "text_repr", "optimizer", "class", "observed", "expected") if k in payload},
+                           "command": f"./check {out.prop} --replay <this file>"})
+    elif kind == "totality":
         bad = check_total(text, payload.get("optimizer") == "default")
         if bad and not any(k["match"](text, bad) for k in known_for("C11") if "match" in k):
             out.violation({**{k: payload[k] for k in ("kind", "text", "text_repr", "optimizer") if k in payload}, **bad,
@@ -1061,6 +1069,84 @@ def replay_known(out: Outcome, prop: str) -> None:
             out.known.append(k["what"])
 
 
+def _child(fn, job, conn):
+    try:
+        conn.send(("ok", fn(job)))
+    except BaseException as e:  # noqa: BLE001
+        conn.send(("exc", f"{type(e).__name__}: {e}"[:300]))
+    finally:
+        conn.close()
+
+
+def _probe_child(text: str, optimized: bool, conn) -> None:
+    _limit()
+    im = impl()
+    r = im.load(text, optimized)
+    conn.send(r[0] if r[0] != "exc" else "exc:" + r[1])
+    conn.close()
+
+
+def returns_within(text: str, optimized: bool, limit_s: float = 25.0) -> bool:
+    """does Parser.from_grammar(text) come back at all?  Run in a child process that is killed after `limit_s`: a loop inside
+    a C extension (a regular expression that backtracks exponentially) cannot be interrupted by a signal handler"""
+    ctx = mp.get_context("fork")
+    a, b = ctx.Pipe(duplex=False)
+    pr = ctx.Process(target=_probe_child, args=(text, optimized, b), daemon=True)
+    pr.start()
+    b.close()
+    ok = a.poll(limit_s)
+    if not ok:
+        pr.kill()
+    pr.join()
+    return bool(ok)
+
+
+def _probe_job(job):
+    text, optimized = job
+    _limit()
+    r = impl().load(text, optimized)
+    return job, (r[0] if r[0] != "exc" else "exc:" + r[1])
+
+
+def run_chunks(fn, jobs: list, per_chunk_s: float):
+    """fn over jobs in at most NCPU child processes, each with a deadline after which it is killed.  Yields ("ok", result) for
+    a finished chunk and ("hung", job) for a killed one."""
+    ctx = mp.get_context("fork")
+    pending = list(jobs)
+    running: list = []
+    while pending or running:
+        while pending and len(running) < NCPU:
+            job = pending.pop()
+            a, b = ctx.Pipe(duplex=False)
+            pr = ctx.Process(target=_child, args=(fn, job, b), daemon=True)   # never outlives the check
+            pr.start()
+            b.close()
+            running.append((pr, a, job, time.time()))
+        time.sleep(0.05)
+        still = []
+        for pr, a, job, t0 in running:
+            if a.poll(0):
+                try:
+                    kind, res = a.recv()
+                except EOFError:
+                    kind, res = "exc", "worker died"
+                pr.join()
+                if kind == "ok":
+                    yield "ok", res
+                else:
+                    yield "died", (job, res)
+            elif not pr.is_alive():
+                pr.join()
+                yield "died", (job, "worker died without an answer")
+            elif time.time() - t0 > per_chunk_s:
+                pr.kill()
+                pr.join()
+                yield "hung", job
+            else:
+                still.append((pr, a, job, t0))
+        running = still
+
+
 def run(out: Outcome) -> None:
     prop = out.prop
     info = proof_stage(out, prop, THEOREMS[prop])      # before _limit(): lake/lean need their address space
@@ -1082,8 +1168,64 @@ def run(out: Outcome) -> None:
     bads, corr = [], []
     stats = collections.Counter()
     evals = nerr = ncorr = ncorr_bad = nbad = 0
-    with mp.Pool(NCPU) as pool:
-        for r in pool.imap_unordered(fn, jobs):
+    pre_bads = []
+    if prop == "C11":
+        # the texts built to strain the front end (deep nesting, unclosed nested comments) are loaded first, one killable process
+        # each: the ones that do not come back are failures at once and are kept out of the chunks
+        risky = set(deep_texts())
+        probe_jobs = [(t, o) for t in texts if t in risky for o in (False, True)]
+        for kind, res in run_chunks(_probe_job, probe_jobs, 25.0):
+            if kind == "hung":
+                t, o = res
+                pre_bads.append({"text": cps(t), "class": "exception:NoReturn", "optimizer": "default" if o else "none",
+                                 "observed": "Parser.from_grammar did not return within 25 s (the process had to be killed)",
+                                 "expected": "a Parser or a PestGrammarError"})
+            elif kind == "ok" and res[1] == "exc:Timeout":
+                t, o = res[0]
+                pre_bads.append({"text": cps(t), "class": "exception:Timeout", "optimizer": "default" if o else "none",
+                                 "observed": f"Timeout: no result within {LOAD_TIMEOUT_S} s", "expected": "a Parser or a PestGrammarError"})
+        hanging = {uncps(b["text"]) for b in pre_bads}
+        texts = [t for t in texts if t not in hanging]
+        jobs = _chunks(texts, NCPU * 4)
+        bads += pre_bads
+        nbad += len(pre_bads)
+
+    def results():
+        """chunks in killable child processes; a chunk that does not come back is taken apart: every text of it is loaded in
+        its own killable process, the ones that do not return become failures, the rest is run again as a chunk"""
+        limit = 900.0 if out.tier == "thorough" else 150.0
+        redo = []
+        for kind, res in run_chunks(fn, jobs, limit):
+            if kind == "ok":
+                yield res
+            elif kind == "hung":
+                hung_texts = []
+                for t in res:
+                    for optimized in ((False, True) if prop == "C11" else (False,)):
+                        if not returns_within(t, optimized):
+                            hung_texts.append(t)
+                            yield {"bads": [{"text": cps(t), "class": "exception:NoReturn", "optimizer": "default" if optimized else "none",
+                                             "observed": "Parser.from_grammar did not return within 25 s (the process had to be killed)",
+                                             "expected": "a Parser or a PestGrammarError"}],
+                                   "nbad": 1, "corr": [], "ncorr": 0, "ncorr_bad": 0, "evals": 1, "errors": 0, "stats": {}}
+                            break
+                rest = [t for t in res if t not in hung_texts]
+                if rest and hung_texts:
+                    redo.append(rest)
+                elif rest:
+                    # every text of it loads, only slowly: taken again in four parts
+                    q = max(1, len(rest) // 4)
+                    redo += [rest[i : i + q] for i in range(0, len(rest), q)]
+            else:
+                raise RuntimeError(f"a worker failed: {res[1]}")
+        for kind, res in run_chunks(fn, redo, limit * 2):
+            if kind == "ok":
+                yield res
+            elif kind == "hung":
+                stats["texts_left_unfinished"] += len(res)
+
+    if True:
+        for r in results():
             bads += r["bads"]
             nbad += r["nbad"]
             corr += r["corr"]
@@ -1116,6 +1258,23 @@ def run(out: Outcome) -> None:
         if reported >= 12:
             break
         text = uncps(b["text"])
+        if prop == "C11" and b["class"] == "exception:NoReturn":
+            optimized = b["optimizer"] == "default"
+            if returns_within(text, optimized):
+                not_reproduced.append({"class": b["class"], "optimizer": b["optimizer"], "text_repr": repr(text)[:200]})
+                continue
+            small = text
+            for _ in range(12):                          # shorten from the end while it still does not return (each try is 25 s at most)
+                cand = small[: max(1, len(small) * 2 // 3)]
+                if len(cand) < len(small) and not returns_within(cand, optimized, 10.0):
+                    small = cand
+                else:
+                    break
+            out.violation({"kind": "totality", "text": cps(small), "text_repr": repr(small)[:400], "optimizer": b["optimizer"],
+                           "class": b["class"], "observed": b["observed"], "expected": b["expected"], "seed": seed(),
+                           "what": "Parser.from_grammar must terminate", "command": "./check C11 --replay <this file>"})
+            reported += 1
+            continue
         if prop == "C11":
             optimized = b["optimizer"] == "default"
             small = shrink_text(text, c11_fails_like(b["class"], optimized))
